@@ -37,6 +37,10 @@ func setup4(args ...string) (handler.Handler4, error) {
 	if mtu, err = strconv.Atoi(args[0]); err != nil {
 		return nil, fmt.Errorf("invalid mtu: %v", args[0])
 	}
+	// the interface MTU option carries an unsigned 16-bit value
+	if mtu < 0 || mtu > 65535 {
+		return nil, fmt.Errorf("mtu out of range (0-65535): %v", args[0])
+	}
 	log.Infof("loaded mtu %d.", mtu)
 	return Handler4, nil
 }
